@@ -396,6 +396,61 @@ pub fn build_api_bfs(t: &Rose) -> Tree {
     tree
 }
 
+/// Build BOTTOM-UP: tips are created first as parentless nodes (`Tree::add`), and every node with two or more children is
+/// created AFTER its first two child subtrees by `merge_children` on two parentless nodes (the documented agglomerative
+/// use); the order in which the two child subtrees are created is random, so the first-created node (slot 0) can be the
+/// first or the LAST child of its parent, the root is the last slot created on its path, and every parent id is larger than
+/// its first two children's.  Further children and chains of one-child nodes are added top-down below the merged node.
+pub fn build_bottom_up(t: &Rose, rng: &mut Rng) -> Tree {
+    fn node_of(r: &Rose) -> Node {
+        let mut n = match &r.name {
+            Some(s) => Node::new_named(s),
+            None => Node::new(),
+        };
+        n.comment = r.comment.clone();
+        n
+    }
+    fn top_down(tree: &mut Tree, r: &Rose, parent: usize) {
+        let id = tree.add_child(node_of(r), parent, r.len).unwrap();
+        for k in r.kids.iter() {
+            top_down(tree, k, id);
+        }
+    }
+    /// returns the id of the (still parentless) root of the subtree built for `r`
+    fn up(tree: &mut Tree, r: &Rose, rng: &mut Rng) -> usize {
+        if r.kids.len() < 2 {
+            let id = tree.add(node_of(r));
+            for k in r.kids.iter() {
+                top_down(tree, k, id);
+            }
+            return id;
+        }
+        let (a, b) = if rng.chance(1, 2) {
+            let a = up(tree, &r.kids[0], rng);
+            let b = up(tree, &r.kids[1], rng);
+            (a, b)
+        } else {
+            let b = up(tree, &r.kids[1], rng);
+            let a = up(tree, &r.kids[0], rng);
+            (a, b)
+        };
+        let id = tree.merge_children(&a, &b, r.kids[0].len, r.kids[1].len, None, r.name.clone()).unwrap();
+        if r.comment.is_some() {
+            tree.get_mut(&id).unwrap().comment = r.comment.clone();
+        }
+        for k in r.kids.iter().skip(2) {
+            top_down(tree, k, id);
+        }
+        id
+    }
+    let mut tree = Tree::new();
+    let root = up(&mut tree, t, rng);
+    if t.len.is_some() {
+        tree.get_mut(&root).unwrap().parent_edge = t.len;
+    }
+    tree
+}
+
 /// Build with tombstones: junk subtrees are attached at random places (also before the root's first
 /// child) and pruned again, so removed slots are interleaved with live ones.
 pub fn build_with_tombstones(t: &Rose, rng: &mut Rng) -> Tree {
